@@ -20,6 +20,7 @@ SNIPPETS = [
     # name, text, class, index
     ("fullA", "Foo v. Bar, 1 U.S. 10 (1990).", "FullCaseCitation", 0),
     ("fullA2", "See Foo v. Bar, 1 U. S. 10, 12 (1990) (en banc).", "FullCaseCitation", 0),
+    ("fullA3", "Smith v. Jones, 1 U.S. 10 (1990).", "FullCaseCitation", 0),  # the same document as fullA under fullB's party names
     ("fullA0", "1 U.S. 10.", "FullCaseCitation", 0),  # the same document as fullA, cited bare (no party names)
     ("fullB", "Smith v. Jones, 1 U.S. 50 (1991).", "FullCaseCitation", 0),
     ("fullC", "Bar v. Baker, 2 F.2d 20 (1992).", "FullCaseCitation", 0),
@@ -49,8 +50,8 @@ SNIPPETS = [
     ("unknown", "§ 5", "UnknownCitation", 0),
 ]
 NAMES = [s[0] for s in SNIPPETS]
-CORE12 = ["fullA", "fullA0", "fullA2", "fullB", "fullC", "fullC3", "fullP", "fullQ", "fullU", "shortAmb", "shortAmbJones", "shortP", "shortPQux", "supraBar", "refJones", "idNoPin", "idValid", "unknown"]
-CLASS = {"fullA": "A", "fullA2": "A", "fullA0": "A", "fullB": "B", "fullC": "C", "fullC3": "C3", "fullP": "P", "fullQ": "Q", "fullU": "U", "law": "law", "jour": "jour", "jourP": "jourP"}
+CORE12 = ["fullA", "fullA0", "fullA2", "fullA3", "fullB", "fullC", "fullC3", "fullP", "fullQ", "fullU", "shortAmb", "shortAmbJones", "shortP", "shortPQux", "supraBar", "refJones", "idNoPin", "idValid", "unknown"]
+CLASS = {"fullA": "A", "fullA2": "A", "fullA0": "A", "fullA3": "A", "fullB": "B", "fullC": "C", "fullC3": "C3", "fullP": "P", "fullQ": "Q", "fullU": "U", "law": "law", "jour": "jour", "jourP": "jourP"}
 PLACEHOLDER_CLASSES = ("P", "Q", "U")  # every instance is its own resource: the canonical state counts them (capped at 2)
 K = {}
 
